@@ -147,9 +147,22 @@ def check_domains(ctx):
                     stmts_ = [x for x in nested[0].body if not (isinstance(x, ast.Expr) and isinstance(x.value, ast.Constant))]
                     if len(stmts_) == 1 and isinstance(stmts_[0], ast.Return):
                         param_, body_ = nested[0].args.args[0].arg, stmts_[0].value
+            extras_ok = set()
+            if isinstance(fwd, ast.Name):
+                # `compressed, aux = transform_data(data, S)`: the forward map hands back bookkeeping of its own, which the undo map may take
+                fname_ = fwd.id
+                for a_ in walk_shallow(cd.node):
+                    if isinstance(a_, ast.Assign) and len(a_.targets) == 1 and isinstance(a_.targets[0], ast.Tuple) and a_.targets[0].elts \
+                            and U(a_.targets[0].elts[0]) == fname_ and isinstance(a_.value, ast.Call) and U(a_.value.func) == 'transform_data':
+                        extras_ok = {U(e_) for e_ in a_.targets[0].elts[1:]}
+                        fwd = a_.value
+                    elif isinstance(a_, ast.Assign) and len(a_.targets) == 1 and U(a_.targets[0]) == fname_ and isinstance(a_.value, ast.Call) \
+                            and U(a_.value.func) == 'transform_data':
+                        fwd = a_.value
             ok = isinstance(fwd, ast.Call) and U(fwd.func) == 'transform_data' and len(fwd.args) == 2 and \
                 body_ is not None and isinstance(body_, ast.Call) and U(body_.func) == 'reverse_data' and \
-                len(body_.args) == 2 and U(body_.args[1]) == U(fwd.args[1]) and U(body_.args[0]) == param_
+                len(body_.args) >= 2 and U(body_.args[1]) == U(fwd.args[1]) and U(body_.args[0]) == param_ and \
+                all(U(x_) in extras_ok for x_ in body_.args[2:]) and not body_.keywords
         ctx.ob('domain-restored', cd, r, ok, 'the undo map must reverse the forward map with the same supports table: '
                'transform_data(data, S) paired with lambda d: reverse_data(d, S)')
     # ---- the forward and the backward map keep the attribute set ---------------------------------------------------
@@ -160,8 +173,11 @@ def check_domains(ctx):
         loops = [s for s in fi.body if isinstance(s, ast.For) and U(s.iter) in (data + '.domain', data + '.domain.attrs')]
         rets = [r for r in walk_shallow(fi.node) if isinstance(r, ast.Return)]
         dom_name = None
-        if rets and isinstance(rets[-1].value, ast.Call) and U(rets[-1].value.func) == 'Dataset' and len(rets[-1].value.args) >= 2:
-            dom_name = U(rets[-1].value.args[1])
+        rv_ = rets[-1].value if rets else None
+        if isinstance(rv_, ast.Tuple) and rv_.elts and isinstance(rv_.elts[0], ast.Call) and U(rv_.elts[0].func) == 'Dataset':
+            rv_ = rv_.elts[0]                      # (dataset, bookkeeping)
+        if rv_ is not None and isinstance(rv_, ast.Call) and U(rv_.func) == 'Dataset' and len(rv_.args) >= 2:
+            dom_name = U(rv_.args[1])
         ok, why = False, 'unrecognised shape'
         if len(loops) == 1 and dom_name:
             col = U(loops[0].target)
